@@ -3,6 +3,7 @@ From Coq Require Import List String.
 From VQ.Gen Require Import w_rfsq.
 Import ListNotations.
 Open Scope string_scope.
-Lemma pin_w_rfsq : w_rfsq =
+Definition pinned_w_rfsq : list string :=
   [].
+Lemma pin_w_rfsq : w_rfsq = pinned_w_rfsq.
 Proof. reflexivity. Qed.
